@@ -27,6 +27,7 @@ type rPayload struct {
 }
 
 func (p rPayload) bytes() []byte { return []byte(fmt.Sprintf("%d|%v|%s", p.Round, p.Bcast, p.Body)) }
+
 // digest: sha256 of the payload, except for the bodies "P<k>x" / "S<k>x" whose digests are forced
 // to share their first / last k bytes with the other bodies of that family (still distinct digests:
 // a conflict check that compares only part of the digest must not get away with it).
